@@ -6,6 +6,7 @@ import (
 	"fmt"
 	"go/types"
 	"math/big"
+	"regexp"
 	"sort"
 	"strings"
 )
@@ -303,8 +304,16 @@ func (c *Ctx) strDecls() []string {
 
 // ---- dynamic type ids ----
 
+var aliasWordRe = regexp.MustCompile(`\b(byte|rune)\b`)
+
 func (c *Ctx) typeID(t types.Type) int {
-	k := types.TypeString(t, nil)
+	// byte/uint8 and rune/int32 are identical types with different spellings
+	k := aliasWordRe.ReplaceAllStringFunc(types.TypeString(types.Unalias(t), nil), func(w string) string {
+		if w == "byte" {
+			return "uint8"
+		}
+		return "int32"
+	})
 	if id, ok := c.typeIDs[k]; ok {
 		return id
 	}
